@@ -228,7 +228,21 @@ func c13Timeout(id string, class int, payloadKind int, seed int64) core.Scenario
 				}
 			}
 		})
-		ask := fpgo.AskNewGenerics[interface{}, string](payload)
+		// the ask is built by every constructor: the library's own reply channel, or a caller supplied unbuffered /
+		// buffered one (NewByOptions)
+		var ask *lateAsk
+		switch ctor := int(seed/4) % 4; ctor {
+		case 0:
+			ask = fpgo.AskNewGenerics[interface{}, string](payload)
+		case 1:
+			ask = fpgo.AskNewByOptionsGenerics[interface{}, string](payload, make(chan string))
+		case 2:
+			ask = fpgo.AskNewByOptionsGenerics[interface{}, string](payload, make(chan string, 1))
+		default:
+			var proto lateAsk
+			ask = proto.NewByOptions(payload, make(chan string))
+		}
+		rep["constructor"] = [...]string{"AskNewGenerics", "AskNewByOptionsGenerics(unbuffered)", "AskNewByOptionsGenerics(buffered 1)", "NewByOptions(unbuffered)"}[int(seed/4)%4]
 		var gate *director.Gate
 		if class == 3 && seed%2 == 0 {
 			// park the asker between the timer firing and the channel being closed; the reply lands in between
@@ -382,8 +396,62 @@ func c13BusyActor(id string, capacity int, seed int64) core.Scenario {
 	}}
 }
 
+// multi-step history in one process: asks whose reply lands within a hair of their timeout (either outcome legal),
+// each followed at once by an ask with a 60 s timeout that the actor answers immediately: that one must never time out.
+func c13NearThenLong(id string, rounds int, seed int64) core.Scenario {
+	return core.Scenario{ID: id, Class: "Ask.timeout", Run: func(c *core.Ctx) {
+		rep := map[string]any{"scenario": id, "class": "reply within a hair of the timeout, then an ask with a 60 s timeout", "rounds": rounds}
+		c.Eval(int64(rounds))
+		c.Distinct(id)
+		type nAsk = fpgo.AskDef[interface{}, string]
+		actor := fpgo.Actor.New(func(self *fpgo.ActorDef[interface{}], m interface{}) {
+			a, ok := m.(*nAsk)
+			if !ok {
+				return
+			}
+			if d, isDur := a.Message.(time.Duration); isDur {
+				t0 := time.Now()
+				for time.Since(t0) < d {
+				}
+				func() {
+					defer func() { recover() }() // a panic of a late Reply is the subject of the late-reply classes
+					a.Reply("near")
+				}()
+				return
+			}
+			a.Reply("prompt")
+		})
+		rng := rand.New(rand.NewSource(seed))
+		var inTime, timedOut int64
+		for r := 0; r < rounds; r++ {
+			timeout := time.Duration(150+rng.Intn(200)) * time.Microsecond
+			delay := timeout + time.Duration(rng.Intn(120)-90)*time.Microsecond
+			v, err := fpgo.AskNewGenerics[interface{}, string](delay).AskOnceWithTimeout(actor, timeout)
+			switch {
+			case err == nil && v == "near":
+				inTime++
+			case err == fpgo.ErrActorAskTimeout && v == "":
+				timedOut++
+			default:
+				c.Violationf("timeout:racing-result", rep, "reply near the timeout: AskOnceWithTimeout returned (%q, %v)", v, err)
+			}
+			v, err = fpgo.AskNewGenerics[interface{}, string]("now").AskOnceWithTimeout(actor, 60*time.Second)
+			if err != nil || v != "prompt" {
+				c.Violationf("timeout:in-time-reply-lost", rep, "round %d: after an ask whose reply came within a hair of its timeout, an ask with a 60 s timeout that the actor answers immediately returned (%q, %v)", r, v, err)
+				break
+			}
+		}
+		c.Count("near_timeout.replied_in_time", inTime)
+		c.Count("near_timeout.timed_out", timedOut)
+		actor.Close()
+	}}
+}
+
 func c13Scenarios(c *core.Ctx, race bool) []core.Scenario {
 	var out []core.Scenario
+	for i := 0; i < c.Pick(4, 16); i++ {
+		out = append(out, c13NearThenLong(fmt.Sprintf("near-then-long-%d-race%v", i, race), c.Pick(300, 1500), c.Seed*71+int64(i)))
+	}
 	n := c.Pick(30, 300)
 	if race {
 		n = c.Pick(12, 60)
@@ -418,7 +486,7 @@ func init() {
 		Meta: func(c *core.Ctx) core.Meta {
 			return core.Meta{
 				Level:       "exploration",
-				Rule:        "correlation: 1..32 concurrent askers x 1..200 asks through AskOnce / AskOnceWithTimeout(60 s) / AskChannel; the reply is a pure function of the request payload and a per-request nonce, the actor replies inline, from helper goroutines in shuffled order, or in reversed batches, so every asker can verify that it received exactly its own answer; timeouts as logical classes: 'in time' = 60 s timeout + immediate reply (an error is a violation), 'never' = 5 ms timeout and no reply, 'after' = the actor replies only after AskOnceWithTimeout has RETURNED ErrActorAskTimeout (signalled by the harness) under recover with a 10 s blocked-detector, 'queued' = the request waits behind a busy actor (mailbox capacity 0..2) beyond the asker's 3 ms timeout and is answered afterwards, 'racing' = PRNG delays around a 200-600 us timeout and the asker parked at ask.timeout.fired so that the reply lands between the timer and the close; afterwards a fresh ask with a 60 s timeout must be served; payload kinds int/string/struct/nil; repeated under -race. distinct_nontrivial = distinct scenarios",
+				Rule:        "correlation: 1..32 concurrent askers x 1..200 asks through AskOnce / AskOnceWithTimeout(60 s) / AskChannel; the reply is a pure function of the request payload and a per-request nonce, the actor replies inline, from helper goroutines in shuffled order, or in reversed batches, so every asker can verify that it received exactly its own answer; timeouts as logical classes: 'in time' = 60 s timeout + immediate reply (an error is a violation), 'never' = 5 ms timeout and no reply, 'after' = the actor replies only after AskOnceWithTimeout has RETURNED ErrActorAskTimeout (signalled by the harness) under recover with a 10 s blocked-detector, 'queued' = the request waits behind a busy actor (mailbox capacity 0..2) beyond the asker's 3 ms timeout and is answered afterwards, 'racing' = PRNG delays around a 200-600 us timeout and the asker parked at ask.timeout.fired so that the reply lands between the timer and the close; afterwards a fresh ask with a 60 s timeout must be served; the asks of the timeout classes are built by AskNewGenerics, AskNewByOptionsGenerics / NewByOptions with caller supplied unbuffered and 1-buffered reply channels; multi-step histories of 300 (thorough 1500) rounds {ask whose reply lands within +-100 us of its 150-350 us timeout, then an ask with a 60 s timeout answered immediately, which must not time out}; payload kinds int/string/struct/nil; repeated under -race. distinct_nontrivial = distinct scenarios",
 				Assumptions: []string{"a 60 s timeout is never hit by an immediately replying actor (safe direction only: a timeout error is a violation, finishing late is not)", "in the racing class either outcome (reply or timeout) is legal"},
 			}
 		},
